@@ -473,8 +473,15 @@ pub assume_specification<T: Clone, EE: Clone> [<Result<T, EE> as Clone>::clone] 
     final(context).trace().len() == old(context).trace().len() + n_params(inparam_list),
     inparam_list is Some ==> (forall|i: int| 0 <= i < n_params(inparam_list) ==>
         final(context).trace()[old(context).trace().len() + i] == context::Ev::Bind(inparam_list->Some_0.sp_params()[i].sp_string(), *typ)),     //@C09:parameters-get-their-type''')
-    zov['bind_typed_parameter_list'].update(ret='r', props=['C09', 'C07', 'C03'], loops={1: ITER('oq3_it1', '\n    oq3_v1@.len() + oq3_it1.rest().len() == param_list.sp_typed_params().len(),')},
-        spec='ensures grows(*old(context), *final(context)), (r is Some) == (inparam_list is Some), r is Some ==> r->Some_0@.len() == inparam_list->Some_0.sp_typed_params().len(),     //@C09:one-symbol-per-parameter')
+    zov['bind_typed_parameter_list'].update(ret='r', props=['C09', 'C07', 'C03'], loops={1: ITER('oq3_it1', '''
+    oq3_v1@.len() + oq3_it1.rest().len() == param_list.sp_typed_params().len(),
+    oq3_it1.rest() =~= param_list.sp_typed_params().skip(oq3_v1@.len() as int),
+    forall|i: int| 0 <= i < oq3_v1@.len() ==> context.in_current_scope((#[trigger] param_list.sp_typed_params()[i]).sp_name()->Some_0.sp_string()),''')},
+        spec='''ensures grows(*old(context), *final(context)), (r is Some) == (inparam_list is Some), r is Some ==> r->Some_0@.len() == inparam_list->Some_0.sp_typed_params().len(),     //@C09:one-symbol-per-parameter
+    // every parameter is declared in the scope that is current (the subroutine's own scope): its name is bound THERE afterwards,
+    // whatever is visible further out (a parameter shadows, it never reuses an outer symbol)
+    inparam_list is Some ==> (forall|i: int| 0 <= i < inparam_list->Some_0.sp_typed_params().len() ==>
+        final(context).in_current_scope((#[trigger] inparam_list->Some_0.sp_typed_params()[i]).sp_name()->Some_0.sp_string())),     //@C09,C07:parameters-bound-in-the-subroutine-scope''')
     zov['stmt_to_asg_stmt'].update(ret='r', props=P, loops={1: ITER_NB('oq3_it1')},
         spec='''requires stmt is Include ==> !old(context).global(),      // the `unreachable!` of the Include arm
 ensures grows(*old(context), *final(context)),
